@@ -393,15 +393,17 @@ def task_bounded(I, seed, k):
             amount = rnd.choice([0.01, 1, '1.1', 12.3, decimal.Decimal('999999999.99'), 100, '0.50', 5.0, 1234567.89, 0.29, 4.35,
                                  # range limits from both sides (out of range values have to be refused, not rounded into the range)
                                  0.0051, '0.0099', 0.009, 0, -5, 1000000000, '999999999.991', '999999999.995', decimal.Decimal('0.0051'), '0.010'])
-            kw = dict(name=rnd.choice(['Wikimedia', 'Fr. Ü', 'x' * 70]), iban='DE33100205000001194700', amount=amount, encoding=enc)
+            # lengths on both sides of every documented limit (name 70, IBAN 34, text 140, reference 35, BIC 8 / 11, purpose 4)
+            kw = dict(name=rnd.choice(['Wikimedia', 'Fr. Ü', 'x' * 70, 'x' * 71, 'y']), iban=rnd.choice(['DE33100205000001194700', 'D' * 34, 'D' * 35, 'DE33100205000001194700']),
+                      amount=amount, encoding=enc)
             if rnd.random() < 0.5:
-                kw['text'] = rnd.choice(['Spende', 'a' * 140, 'Ünïcode €'])
+                kw['text'] = rnd.choice(['Spende', 'a' * 140, 'a' * 141, 'Ünïcode €'])
             else:
-                kw['reference'] = 'RF18539007547034'
+                kw['reference'] = rnd.choice(['RF18539007547034', 'R' * 35, 'R' * 36, 'RF18539007547034'])
             if rnd.random() < 0.5:
-                kw['bic'] = 'BFSWDE33BER'
+                kw['bic'] = rnd.choice(['BFSWDE33BER', 'BFSWDE33', 'BFSWDE33B', 'BFSWDE33BER'])
             if rnd.random() < 0.3:
-                kw['purpose'] = 'GDDS'
+                kw['purpose'] = rnd.choice(['GDDS', 'GDDSX'])     # (shorter codes: the format says "4 characters", the helper insists on exactly 4 - not a clause of the property)
             try:
                 pl = H._make_epc_qr_data(**kw)
             except ValueError as ex:
